@@ -50,6 +50,7 @@ type aEvent struct {
 	BadY     int
 	JumpMin  int      // absolute wall-clock jump target (minute of day), with Dt == -1
 	JumpK    int
+	UpJumpMs uint32   // camera uptime jumps forward by this much before the frame
 	BZ       int      // number of border pixels set to zero (must not matter)
 	FFC      bool     // an FFC happens just before this frame
 	Pix      [][]uint16 // explicit content (detector-focused scenarios); nil → generated
@@ -68,6 +69,7 @@ type aOpts struct {
 	NoTest bool // drop test-recording requests
 	NoCont bool // run without the continuous recorder
 	SkipEv int  // index of an event to leave out (-1 none)
+	After  func(i int, w *aWorld) // called after every executed event with its trace index (in-package observations)
 }
 
 // genRecScenario draws a recorder-focused scenario. focus biases the generator
@@ -334,7 +336,7 @@ func (w *aWorld) exec(opt aOpts) *zz.Trace {
 			if e.Kind == 'F' || e.Kind == 'B' {
 				w.scene(e) // the scene evolves whether or not the frame is delivered
 				w.nextID++
-				w.upMs += period
+				w.upMs += period + e.UpJumpMs
 				if e.FFC {
 					w.lastFFCMs = w.upMs
 				}
@@ -357,7 +359,7 @@ func (w *aWorld) exec(opt aOpts) *zz.Trace {
 			case 'F', 'B':
 				id := w.nextID
 				w.nextID++
-				w.upMs += period
+				w.upMs += period + e.UpJumpMs
 				if e.FFC {
 					w.lastFFCMs = w.upMs
 				}
@@ -414,6 +416,9 @@ func (w *aWorld) exec(opt aOpts) *zz.Trace {
 			}
 		}()
 		ev.Thresh = w.mp.motionDetector.tempThresh
+		if opt.After != nil {
+			opt.After(len(w.tr.Ev)-1, w)
+		}
 	}
 	return w.tr
 }
